@@ -23,7 +23,8 @@ abbrev ClientKey := List Nat
 * `empty` — no IAPrefix option in the IA_PD (the handler's synthetic `&net.IPNet{}`), or an
   IAPrefix of prefix-length 0, which the library parses to a nil `Prefix` and the handler
   replaces by `&net.IPNet{}`: IP nil, mask nil;
-* `pfx ip v4 len` — prefix-length 1..128: 16-byte `ip` (`v4` = it is IPv4-mapped), /len 128-bit mask;
+* `pfx ip v4 len` — prefix-length 1..128: 16-byte `ip` (`v4` = it is IPv4-mapped; since the `fix:`
+  for D18 the allocator decides membership on the 16 bytes and the flag no longer matters), /len 128-bit mask;
 * `nomask ip v4` — prefix-length > 128: `net.CIDRMask` returns a nil mask. -/
 inductive HintP
   | empty
@@ -37,8 +38,8 @@ def leaseDur : Int := 3600 * 1000000000
 /-- what the allocator sees of the hint -/
 def HintP.toHint6 : HintP → Hint6
   | .empty => ⟨none, 0, 0⟩
-  | .pfx ip v4 len => ⟨if v4 then none else some ip, len, 128⟩
-  | .nomask ip v4 => ⟨if v4 then none else some ip, 0, 0⟩
+  | .pfx ip _ len => ⟨some ip, len, 128⟩
+  | .nomask ip _ => ⟨some ip, 0, 0⟩
 
 /-- `samePrefix(h.Prefix, &lease.Prefix)` -/
 def HintP.same (h : HintP) (l : Lease) : Bool :=
